@@ -279,7 +279,6 @@ func VH07c_idseed() {
 	c, err := sock.OpenContext()
 	verif.Assert(err == nil, lab+"/open-context")
 	K := verif.Param("K", 3)
-	var prev []byte
 	var ids [][]byte   // wire ids of the requests so far
 	var dist []uint32  // counter distance of each of them to the current request
 	for i := 0; i < K; i++ {
@@ -312,10 +311,6 @@ func VH07c_idseed() {
 			return
 		}
 		verif.Assert(r.H[0]&0x80 != 0, lab+"/id-on-the-wire-without-the-request-bit")
-		if prev != nil {
-			verif.Assert(!verif.BytesEq(prev, r.H), lab+"/consecutive-ids-equal")
-		}
-		prev = r.H
 		// ids are unique within any window of 2^31 allocations
 		for j := range ids {
 			verif.Assert(verif.Not(verif.BytesEq(ids[j], r.H)), lab+"/two-requests-less-than-2^31-allocations-apart-share-an-id")
